@@ -258,9 +258,21 @@ Fixpoint only_blank_eos (ts : list etok) : bool :=
 Section Code.
 Variable is_letter : rune -> bool.
 Variable is_udigit : rune -> bool.
+(* "/*" always starts a comment: when it is not closed the lexer falls back to the operators '/' and '*';
+   ParseCode rejects a '/' token immediately followed by a '*' token *)
+Fixpoint open_comment (ts : list etok) : bool :=
+  match ts with
+  | a :: ((b :: _) as r) =>
+    (match e_kind a, e_kind b with
+     | TP DIV, TP STAR => N.eqb (e_line a) (e_line b) && N.eqb (e_col b) (e_col a + 1)
+     | _, _ => false
+     end) || open_comment r
+  | _ => false
+  end.
 Definition parse_code (s : str) : option expr :=
   match lex is_letter is_udigit s with
   | Some ts =>
+    if open_comment ts then None else
     match parse_expr (2 * length ts + 2) 0%nat ts with
     | Some (e, rest) => if only_blank_eos rest then Some e else None
     | None => None
